@@ -936,7 +936,7 @@ def _chain_protocol(self, next_key):
             after = sc.meta["temps"][slot[1]]
             newcur = self.navigate(sc, after, cursors[0])
             out = out if isinstance(out, VLazy) else out
-            yielded = State.node_of_id(out.get("0")) if isinstance(out, VEnum) and out.variant == "Some" else None
+            yielded = st.node_of_id(out.get("0")) if isinstance(out, VEnum) and out.variant == "Some" else None
             if not writes and yielded == g and isinstance(newcur, VLazy) and newcur.n == g and newcur.field in LINKS:
                 # exhausted cursor stays exhausted and yields None
                 st2 = State()
